@@ -6,7 +6,7 @@
 (* its peers has a ready connection and not ready once none of its peers has a connection.     *)
 EXTENDS MonBase
 
-Init == [i |-> 0, viol |-> {},
+Init == [i |-> 0, viol |-> {}, reg |-> {},
          owners |-> [c \in CIds |-> {}],      \* peers this connection belongs to (dialled peer / identity of a successful exchange)
          cand   |-> [c \in CIds |-> ""],      \* Origin-Host of the first CER on an inbound connection
          dir    |-> [c \in CIds |-> ""],
@@ -42,8 +42,8 @@ Check(M, sn) ==
       multi == M.multi \cup {p \in MPeers : Cardinality(live(p)) > 1}
       several(a) == \E j \in 1..Len(MCfg.apps[a].peers) : MCfg.apps[a].peers[j] \in multi
       v7 == {IF several(a) THEN "app_not_ready_with_ready_peer:peer_with_several_connections" ELSE "app_not_ready_with_ready_peer"
-               : a \in {x \in MApps : rdy(x) /\ sn.apps[x] = 0}}
-      v8 == {"app_ready_without_connection" : a \in {x \in MApps : none(x) /\ sn.apps[x] = 1}}
+               : a \in {x \in RegApps(M.reg) : rdy(x) /\ sn.apps[x] = 0}}
+      v8 == {"app_ready_without_connection" : a \in {x \in RegApps(M.reg) : none(x) /\ sn.apps[x] = 1}}
       sigs == v1 \cup v1o \cup v2 \cup v3 \cup v4 \cup v5 \cup v6 \cup v7 \cup v8
   IN [M EXCEPT !.viol = @ \cup {[sig |-> s, at |-> M.i] : s \in sigs},
                !.multi = multi,
@@ -53,6 +53,8 @@ Check(M, sn) ==
 StepN(M, st) ==
   LET M0 == [M EXCEPT !.i = @ + 1]
       M1 == IF IsFeed(st) THEN OnFeed(M0, st.act.c, st.act.ms) ELSE M0
-  IN Check(FoldLeft(OnOut, M1, st.out), st.snap)
+      \* (an application registered in this step is judged from this step on)
+      M2 == [M1 EXCEPT !.reg = RegNext(@, st)]
+  IN Check(FoldLeft(OnOut, M2, st.out), st.snap)
 Step(M, s0) == StepN(M, Norm(s0))
 =============================================================================
